@@ -84,6 +84,42 @@ def directed(prop, world, quick):
             steps += [connect(c + 1), login(c + 1, "adm", [1]), connect(c + 2, "10.2.2.2"), login(c + 2),
                       {"op": "userlist", "c": c + 1}]
             out.append({"world": world, "steps": steps})
+        # a password change through the protocol, then the old and the new password (the old one used before)
+        for who, old, newpw in (("mute", [2], [5]), ("adm", [1], [6])):
+            steps = [connect(1), login(1, who, old), {"op": "close", "c": 1},
+                     connect(2, "10.1.1.12"), login(2, "adm", [1]),
+                     {"op": "setuser", "c": 2, "login": who, "name": [120], "acc": [9, 10, 17, 22], "pwset": True, "newpw": newpw},
+                     connect(3, "10.2.2.2"), login(3, who, old), connect(4, "10.2.2.2"), login(4, who, newpw),
+                     connect(5, "10.2.2.2"), login(5, who, old, flow="new")]
+            out.append({"world": world, "steps": steps})
+    if prop == "C13":
+        # a user with an empty nickname (both login flows) is a user all the same: listed, announced, addressable
+        for flow in ("old", "new"):
+            steps = [connect(1), login(1, "adm", [1]), {"op": "userlist", "c": 1}, connect(2, "10.2.2.2"), login(2, "", [], flow=flow, name=[])]
+            if flow == "new":
+                steps.append({"op": "agreed", "c": 2, "name": [], "icon": 2, "opts": 0, "auto": [33]})
+            steps += [{"op": "userlist", "c": 1}, {"op": "userlist", "c": 2}, {"op": "pm", "c": 1, "target": 2, "msg": [112]},
+                      {"op": "getinfo", "c": 1, "target": 2}, {"op": "setinfo", "c": 2, "name": [], "icon": 3, "icon4": False, "opts": 0, "auto": [34]},
+                      {"op": "userlist", "c": 1}, {"op": "close", "c": 2}, {"op": "userlist", "c": 1}]
+            out.append({"world": world, "steps": steps})
+        # away and back: everybody, the user itself included, is told both times
+        steps = [connect(1), login(1, "adm", [1]), connect(2, "10.2.2.2"), login(2), {"op": "userlist", "c": 1}, {"op": "userlist", "c": 2},
+                 {"op": "goneidle", "c": 2}, {"op": "wake", "c": 2}, {"op": "userlist", "c": 1}, {"op": "userlist", "c": 2}]
+        out.append({"world": world, "steps": steps})
+    if prop == "C17":
+        # a temporary ban over an entry that has run out, and over one that is still running (second user behind the
+        # same address, logged in before the first ban)
+        for first in ("past", "soon"):
+            steps = [connect(1), login(1, "adm", [1])]
+            if first == "past":
+                steps += [{"op": "banadd", "addr": "10.2.2.2", "class": "past"}, connect(2, "10.2.2.2"), login(2)]
+            else:
+                steps += [connect(2, "10.2.2.2"), login(2), {"op": "banadd", "addr": "10.2.2.2", "class": "soon"}]
+            steps += [{"op": "kick", "c": 1, "target": 2, "ban": 1}]
+            if first == "soon":
+                steps.append({"op": "wait"})
+            steps += [connect(3, "10.2.2.2"), {"op": "restart"}, connect(4, "10.2.2.2"), connect(5, "10.1.1.12"), login(5)]
+            out.append({"world": world, "steps": steps})
     return out
 
 
@@ -129,11 +165,11 @@ def run(ctx, prop):
     if prop == "C17":
         for k in range(8 if quick else 40):
             scripts.append({"world": world, "steps": [{"op": "banstorm", "n": 24}]})
-    scripts += directed(prop, world, quick)
+    scripts += [dict(d, directed=True) for d in directed(prop, world, quick)]
     # an idle step waits for the server's real 10 s ticker: keep at most one (quick) / three (thorough) per script
     for idx, sc in enumerate(scripts):
         keep, seen, dropwake = [], 0, set()
-        limit = (1 if idx % 3 == 0 else 0) if quick else 3
+        limit = (1 if (idx % 3 == 0 or sc.get("directed")) else 0) if quick else 3
         for st in sc["steps"]:
             if st.get("op") == "goneidle":
                 seen += 1
